@@ -131,7 +131,11 @@ def run (c : Case) : String :=
       -- FromChannel: the goroutine delivers the completion; the subscriber's finalizers
       -- [close(done), the user's callback] run on it and the collected panic is re-raised
       let p' := if (op.drop 3).toString == "FromChannel" then (runFinalizers [none, p]).2.head? else p
-      s!"res {c.id} {renderGo (goBody rec p')}"
+      let seen : List (Notif Int) :=
+        if (op.drop 3).toString == "Future" then (futureRun rec p 1).seen
+        else if (op.drop 3).toString == "FromChannel" then [.complete {}] else []
+      let seenS := if seen.isEmpty then "-" else ",".intercalate (seen.map renderNotifBare)
+      s!"res {c.id} {renderGo (goBody rec p')} seen={seenS}"
     | none, _ => s!"res {c.id} bad-faults"
     | _, none => s!"res {c.id} unsupported"
   else
